@@ -20,7 +20,17 @@ def run(check):
     check.simulate('sim_big', 'USimProps', 'Spec', storm.BIG,
                    ['NoFault', 'NoForeignSignal', 'RunLive', 'CascadeShape', 'MutualExclusion', 'OwnerConsistent',
                     'ShareBounded', 'NoStuck'], num=60 if check.tier == 'quick' else 3000, depth=120)
-    runs = scopedom.run(check, OBS, LABELS[check.tier], conform=True)
+    # clocks so large that delays are absorbed by float rounding, infinite dates, fractional dates (storm.timing_program)
+    import random
+    import usimrun
+    rng = random.Random(check.seed + 11)
+    n = 1500 if check.tier == 'quick' else 20000
+    progs = [storm.timing_program(rng) for _ in range(n)]
+    results = usimrun.run_many([p['roots'] for p in progs], None, starts=[p['start'] for p in progs])
+    more = [(p, storm.rankify(log), len(p['roots'])) for p, (log, outcome) in zip(progs, results)]
+    check.programs += n
+    check.extra['timing_storm_programs'] = n
+    runs = scopedom.run(check, OBS, LABELS[check.tier], conform=True, more=more)
     # the binding itself is tested: corrupted copies of recorded traces must be rejected by the operational spec
     import selftest
     st = selftest.run(check, 300 if check.tier == 'quick' else 3000)
